@@ -3,7 +3,8 @@ From V.lib Require Import Base.
 (* read-only: the independent parameter-set serialisers of C15 (used by the driver's GEN mode); imported first so
    that the names of the C19 model win *)
 From V.c15 Require Import C15Model C15Spec C15HevcModel C15HevcSpec.
-From V.c19 Require Import C19Model C19RecModel.
+From V.c01 Require Import C01Codec C01Model.
+From V.c19 Require Import C19Model C19RecModel C19TreeModel.
 Require Import ExtrOcamlBasic.
 Separate Extraction
   avc_info st trak sentry scfg avcc hvcc dac3 ec3sub dec3 mchild mhdr outcome op desc
@@ -11,5 +12,6 @@ Separate Extraction
   moov_add_trak elng_payload elng_decode trak_shape stpp_payload stpp_decode
   avcrec hvcrec avcrec_size avcrec_encode avcrec_decode avcrec_canon avcrec_of
   hvcrec_size hvcrec_encode hvcrec_decode hvcrec_of
+  tree_of init_encode roundtrip_ok is_fragmented_init has_trex encode_seq size_box decode_file
   nalu_sps nalu_pps sps_valid pps_valid display_width display_height compat_byte eff_chroma_format_idc has_chroma_block
   nalu_of ue_bits hnalu_sps hnalu_pps hsps_valid hpps_valid hrps_valid derive_one d_num_delta expected_himage_size constraint48.
